@@ -10,9 +10,9 @@ LEVEL = {
  "C05": ("differential monitor: reference deciders for substring/prefix/postfix/exact incl. best-bonus leftmost occurrence", "sec 5 C05"),
  "C10": ("catch_unwind totality monitor with overflow checks, slab view-extent hook, long-lived vs fresh matcher differential", "sec 5 C10"),
  "C14": ("reference grammar differential + ASCII/non-ASCII substitution metamorphic monitor + escape round trip + reparse", "sec 5 C14"),
- "C15": ("composition oracle: atom-by-atom evaluation on fresh matchers vs Pattern/Atom/MultiPattern API on a dirtied shared matcher", "sec 5 C15"),
+ "C15": ("composition oracle: atom-by-atom evaluation on fresh matchers vs Pattern/Atom/MultiPattern API on a dirtied shared matcher; patterns with a parse history and in-place atom edits, sums beyond u16, long lived copies updated with clone_from", "sec 5 C15, 11.4"),
  "C16": ("exhaustive enumeration of all 1,112,064 scalar values against independent Unicode data + coherence probes through every matcher path", "sec 5 C16"),
- "C17": ("differential monitor against unicode-segmentation used directly, all constructors and all ranges", "sec 5 C17"),
+ "C17": ("differential monitor against unicode-segmentation used directly, all constructors, iterator adaptors and all ranges; long texts with pieces across power-of-two byte offsets", "sec 5 C17, 11.4"),
 }
 NOTE = {
  "C01": "trusted: chars::normalize/to_lower_case as the projection (C16 checks them against Unicode data); harness generators; held on the inputs generated, not a proof",
@@ -90,11 +90,11 @@ ENGINES = [
 ]
 
 LEVEL.update({
- "C06": ("snapshot consistency checker after every tick of scripted/random/directed histories against a real Nucleo (held writers, cancellations, restarts), plus ASan and Miri on small histories", "sec 5 C06"),
+ "C06": ("snapshot consistency checker after every tick of scripted/random/directed histories against a real Nucleo (held writers, cancellations, restarts, publication at the n-th read of the run, update_config, changing reparse settings; debug-assertion and release builds), ASan and Miri on small histories, plus a single threaded layout mode over item types of every alignment", "sec 5 C06, 11.4"),
  "C07": ("quiescence oracle: snapshot vs from-scratch result after random and directed edit/tick/restart histories", "sec 5 C07"),
- "C08": ("recorded histories checked against a sequential append-only model with unique ids: controlled schedules at atomic-operation granularity (coroutine scheduler over verif yield points) + free-running stress + ASan + Miri", "sec 5 C08"),
+ "C08": ("recorded histories checked against a sequential append-only model with unique ids: controlled schedules at atomic-operation granularity (coroutine scheduler over verif yield points) + free-running stress (debug-assertion and release builds) + ASan + Miri; item types of every alignment and very large vectors; exhausted index space (refused reservations beyond 2^32, count read inside a refused reservation)", "sec 5 C08, 11.4"),
  "C09": ("race detectors (Miri with many seeds, ThreadSanitizer) on hook-free vector-level and Nucleo-level workloads", "sec 5 C09"),
- "C11": ("exactly-once drop counters with canaries and early-drop detection on vector-level and Nucleo-level histories; LeakSanitizer/ASan and Miri leak checker", "sec 5 C11"),
+ "C11": ("exactly-once drop counters with canaries and early-drop detection on vector-level and Nucleo-level histories (lying and inconsistent iterators, panicking callbacks, pushes issued while unwinding, injectors outliving the matcher); counting global allocator for item types without drop glue; LeakSanitizer/ASan and Miri leak checker", "sec 5 C11, 11.4"),
  "C12": ("stream-tagged payloads: every snapshot after restart must be exactly the retained one or consist solely of new-stream items; directed restart schedules", "sec 5 C12"),
  "C13": ("bounded-progress monitor over an event log: all 9 orderings of the tick/worker hand-over forced with pause hooks, event-loop client with delays, injector visibility clause", "sec 5 C13"),
  "C19": ("wrapper oracle around every tick (changed=false => identical snapshot; running=false => completed pushes accounted, current pattern)", "sec 5 C19"),
